@@ -150,4 +150,108 @@ fn c19_rle__arbitrary_bytes_no_trap__bnd__term__thr() {
     std::mem::forget(r);
 }
 
+// C10 / C03 (bounded stand-in, native; NOT a proof): the RLE / bit-packed hybrid decoder (definition levels, dictionary
+// indices, booleans) returns the encoded values however the reads are cut.  Streams are produced by a small reference
+// ENCODER written from the format specification (bit-packed run: header (groups << 1) | 1 followed by groups of 8 values,
+// least significant bit first; RLE run: header count << 1 followed by the value in ceil(width / 8) bytes).  For bit
+// widths 1, 2, 3, 5, 7, 8, 12 and six run layouts (bit-packed runs of 8 / 16 / 24 values, an RLE run, RLE + bit-packed,
+// bit-packed + RLE + bit-packed) the real decoder must return the encoded values when reading everything in one call
+// and when reading at EVERY split point into two calls and at every pair of split points into three (a batch boundary
+// in the middle of a bit-packed run, i.e. not at a byte boundary for widths that are not a multiple of 8).
+fn rle_uleb(mut v: u64, out: &mut Vec<u8>) {
+    loop {
+        let b = (v & 0x7f) as u8;
+        v >>= 7;
+        if v == 0 {
+            out.push(b);
+            break;
+        }
+        out.push(b | 0x80);
+    }
+}
+
+fn rle_encode(runs: &[(bool, Vec<u64>)], width: u32) -> Vec<u8> {
+    let mut out = Vec::new();
+    for (packed, vals) in runs {
+        if *packed {
+            assert!(vals.len() % 8 == 0);
+            rle_uleb((((vals.len() / 8) as u64) << 1) | 1, &mut out);
+            let mut acc: u128 = 0;
+            let mut nbits = 0u32;
+            for v in vals {
+                acc |= (*v as u128) << nbits;
+                nbits += width;
+                while nbits >= 8 {
+                    out.push((acc & 0xff) as u8);
+                    acc >>= 8;
+                    nbits -= 8;
+                }
+            }
+            assert!(nbits == 0);
+        } else {
+            rle_uleb((vals.len() as u64) << 1, &mut out);
+            let v = vals[0];
+            for i in 0..width.div_ceil(8) {
+                out.push(((v >> (8 * i)) & 0xff) as u8);
+            }
+        }
+    }
+    out
+}
+
+#[test]
+fn c03c10_rle_hybrid__values_and_split_reads__nat() {
+    let mut cases = 0usize;
+    for width in [1u32, 2, 3, 5, 7, 8, 12] {
+        let mask = (1u64 << width) - 1;
+        let val = |i: usize| -> u64 { ((i as u64).wrapping_mul(0x9e37_79b9) >> 7 ^ (i as u64)) & mask };
+        let packed = |start: usize, n: usize| -> (bool, Vec<u64>) { (true, (start..start + n).map(val).collect()) };
+        let rle = |v: u64, n: usize| -> (bool, Vec<u64>) { (false, vec![v & mask; n]) };
+        let layouts: Vec<Vec<(bool, Vec<u64>)>> = vec![
+            vec![packed(0, 8)],
+            vec![packed(3, 16)],
+            vec![packed(5, 24)],
+            vec![rle(5, 7)],
+            vec![rle(1, 3), packed(11, 16)],
+            vec![packed(2, 8), rle(6, 5), packed(40, 16)],
+        ];
+        for runs in &layouts {
+            let stream = rle_encode(runs, width);
+            let want: Vec<u64> = runs.iter().flat_map(|(_, v)| v.iter().copied()).collect();
+            let n = want.len();
+            let read = |cuts: &[usize]| -> std::result::Result<Vec<u64>, String> {
+                let mut dec = RleBitPackedDecoder::new(ReadCursor::from_slice(&stream), width as u8);
+                let mut out = vec![0u64; n];
+                let mut prev = 0;
+                for &c in cuts.iter().chain(std::iter::once(&n)) {
+                    if c > prev {
+                        dec.read(&mut out[prev..c]).map_err(|e| e.to_string().lines().next().unwrap_or("").to_string())?;
+                    }
+                    prev = c;
+                }
+                Ok(out)
+            };
+            let describe = || -> String { runs.iter().map(|(p, v)| format!("{}x{}", if *p { "bit-packed" } else { "rle" }, v.len())).collect::<Vec<_>>().join(" + ") };
+            match read(&[]) {
+                Ok(got) => assert!(got == want, "RLE / bit-packed hybrid (width {width}, runs {}) decodes to {got:?}, the encoded values are {want:?}", describe()),
+                Err(e) => panic!("RLE / bit-packed hybrid (width {width}, runs {}) failed: {e}", describe()),
+            }
+            for a in 0..=n {
+                for b in a..=n {
+                    match read(&[a, b]) {
+                        Ok(got) => assert!(
+                            got == want,
+                            "RLE / bit-packed hybrid (width {width}, runs {}) read as {a} + {} + {} values gives {got:?}, a single read gives {want:?}",
+                            describe(), b - a, n - b
+                        ),
+                        Err(e) => panic!("RLE / bit-packed hybrid (width {width}, runs {}) read as {a} + {} + {} values failed: {e}", describe(), b - a, n - b),
+                    }
+                    cases += 1;
+                }
+            }
+        }
+    }
+    assert!(cases > 5000);
+}
+
 include!("/verif/build/kani-gen/pq_rle.playback.rs");
